@@ -855,6 +855,10 @@ class MCrash(Monitor):
         self.requested = set()
         self.orphan_dropped = set()
         self.reply_consumed = set()
+        self.reply_consumed_before_crash = set()
+        self.depth = {}               # message id of a delivered event -> length of its Branch stack
+        self.inner_join_before_crash = False
+        self.crashed = False
     def on_note(self, w, note):
         d = (note["body"] or {}).get("detail") or {}
         arn, st = d.get("executionArn"), d.get("status")
@@ -865,6 +869,22 @@ class MCrash(Monitor):
             self.term_step = getattr(self, "term_step", {})
             self.term_step.setdefault(arn, w.step_no)
     def on_op(self, w, op):
+        if op["op"] == "crash":
+            self.crashed = True
+            self.reply_consumed_before_crash = set(self.reply_consumed)
+        if op["op"] == "deliver" and op.get("arn") and op.get("queue", "").startswith("asl_workflow_events"):
+            for conn in w.broker.connections:
+                if conn.is_open:
+                    for ch in conn.channels:
+                        ent = ch.unacked.get(op["tag"])
+                        if ent and ent[1].props.message_id == op.get("message_id"):
+                            try:
+                                self.depth[op.get("message_id")] = len((ent[1].meta()[1]["context"].get("State") or {}).get("Branch") or [])
+                            except Exception:
+                                pass
+        if op["op"] == "ack" and not self.crashed and op.get("site") and "acknowledge_event_list" in str(op["site"][1]) and self.depth.get(op.get("message_id"), 0) >= 2:
+            # the join of a fan-out nested in another one released its branch events: from here on its result lives in memory only
+            self.inner_join_before_crash = True
         if op["op"] == "deliver" and op.get("redelivered") and op.get("arn") and op.get("queue", "").startswith("asl_workflow_events"):
             # only a redelivered *Task* state event can be "treated as already requested"
             for conn in w.broker.connections:
@@ -940,8 +960,10 @@ class MCrash(Monitor):
                     # diagnosis (facts from the op log, used to tell root causes apart)
                     if self.orphan_dropped & self.requested:
                         what = "reply-to-a-sent-request-dropped-as-orphan"
-                    elif err == "States.Timeout" and any(m in self.reply_consumed for m in self.redelivered_events):
+                    elif err == "States.Timeout" and any(m in self.reply_consumed_before_crash for m in self.redelivered_events):
                         what = "redelivered-task-event-whose-reply-was-already-consumed"
+                    elif err == "States.Timeout" and self.inner_join_before_crash:
+                        what = "nested-join-result-held-only-in-memory"
                     elif err == "States.Timeout" and any(
                             m in self.requested and getattr(self, "child_of", {}).get(m) in getattr(self, "term_step", {})
                             and self.term_step[self.child_of[m]] <= getattr(self, "redeliv_delegate_step", {}).get(m, float("inf"))
